@@ -47,8 +47,12 @@ impl Runner {
     /// outcome class (ok / failed / panic) and, on success, the whole graph.
     /// `variant_hard`: the error variant must agree too; `ctx_hard`: the whole context chain.
     pub fn check_mode(&mut self, rep: &mut Report, case: &Case, cfg: &RunCfg, variant_hard: bool, ctx_hard: bool) -> ModeResult {
+        let t0 = std::time::Instant::now();
         let ir = run_impl(&case.loaded.file, &case.source.tree, &case.source.src, case.info, cfg);
+        let t1 = std::time::Instant::now();
         let model = run_model(&mut self.drv, &mut self.table, case.mi, cfg);
+        rep.count_n("time-ms:implementation", (t1 - t0).as_millis() as usize);
+        rep.count_n("time-ms:model", t1.elapsed().as_millis() as usize);
         let class = outcome_class(&ir.outcome);
         let mode = if cfg.lazy { "lazy" } else { "strict" };
         let p = self.prop.clone();
@@ -110,6 +114,7 @@ pub fn campaign(
             // the oracle table travels with every request: keep it per case
             rep.count_n("regex-oracle-questions", runner.table.rx_asked + runner.table.rp_asked);
             runner.table = OracleTable::new();
+            runner.table.arm_sets = crate::astx::scan_arm_sets(&loaded.file);
             let key = format!("{}\u{0}{}", loaded.program.text, source.src);
             rep.case(&key, mi.n_matches > 0);
             rep.count_n("matches", mi.n_matches);
